@@ -38,6 +38,9 @@ type Property struct {
 	// Assumptions listed in the evidence.
 	Assumptions []string
 	Pkgs        []string
+	// Level: evidence level category (default "proof"); "other" where the decisive part of
+	// the claim is a bounded island
+	Level string
 }
 
 type Finding struct {
@@ -481,6 +484,10 @@ func (rep *Report) reportViolation(o *Obligation) {
 
 func (rep *Report) finish(rebase bool) int {
 	p := rep.Prop
+	if os.Getenv("GOVC_KEEP_OUT") == "" {
+		// the SMT scripts are only needed for debugging; disk space is limited
+		os.RemoveAll(filepath.Join(verifDir, "out", p.ID))
+	}
 	sort.Strings(rep.Known)
 	for _, k := range rep.Known {
 		fmt.Println(k)
@@ -528,6 +535,9 @@ func (rep *Report) finish(rebase bool) int {
 		cov["samples"] = []interface{}{"(no discharged obligation in this run)"}
 	}
 	level := "proof"
+	if p.Level != "" {
+		level = p.Level
+	}
 	ev := map[string]interface{}{
 		"property_id": p.ID,
 		"tier":        rep.Tier,
